@@ -97,13 +97,14 @@ func defaultSpec() DocSpec {
 }
 
 type LazyV struct {
-	ID    int
-	Name  string
-	Poss  uint32
-	Depth  int
-	Res    *IfaceV
-	ChildU uint32
-	Level  int // 0 for a root created by vrtDoc
+	ID      int
+	Name    string
+	Poss    uint32
+	Depth   int
+	Res     *IfaceV
+	ChildU  uint32
+	Level   int // 0 for a root created by vrtDoc
+	Touched bool
 }
 
 func (in *Interp) newLazy(name string, depth int, universe uint32, childU uint32) *LazyV {
@@ -133,6 +134,7 @@ func lowestTag(x uint32) int {
 }
 
 func (in *Interp) lazyIsNil(l *LazyV) bool {
+	l.Touched = true
 	if l.Res != nil {
 		return l.Res.T == nil
 	}
@@ -155,6 +157,7 @@ func (in *Interp) lazyIsNil(l *LazyV) bool {
 // resolved interface value if the assertion can succeed, or a zero IfaceV
 // with l.Res == nil if it fails without full resolution.
 func (in *Interp) lazyAssert(l *LazyV, asserted types.Type) IfaceV {
+	l.Touched = true
 	if l.Res != nil {
 		return *l.Res
 	}
